@@ -64,7 +64,8 @@ static Outcome runCase(const KV& c)
         const int nsolves    = (int)c.getI("r" + std::to_string(k) + "_solves", 1);
         if (!haveSetup || setupTimeDiffers(cfg, setupCfg))
             doSetup = true; // documented use: structural options need setup()
-        cfg.applyOptions(*s);
+        if (k > 0)
+            cfg.applyChanged(*s, cfgs[k - 1]); // only what the user changes between two solves
         try {
             if (doSetup) {
                 s->setup();
